@@ -34,6 +34,7 @@ fn main() {
 		"response_member_forms" => probes::response_member_forms(),
 		"subscription_id_reuse" => probes::subscription_id_reuse(),
 		"subscription_string_ids" => probes::subscription_string_ids(),
+		"batch_subscribe_entry" => probes::batch_subscribe_entry(),
 		"client_fragmented_reply_with_timers" => probes::client_fragmented_reply_with_timers(),
 		"generated_subscription_names" => probes::generated_subscription_names(),
 		"client_concurrent_batches_and_calls" => probes::client_concurrent_batches_and_calls(),
